@@ -417,6 +417,9 @@ def run(ctx):
             r4.site("From<u128>: limbs [low, high, 0, 0] of split_u128(val)")
         else:
             r4.fail("C08.R4:from_u128", f.path, f.span, "From<u128> for Uint256 builds %s, expected U256([low, high, 0, 0]) of split_u128(val)" % rs[:200])
+    conversion_inventory(ctx, r4)
+    z = ctx.inst("C08.Z", "zero tests: Uint256::is_zero / Decimal256::is_zero are U256::is_zero of the single field (or a test of all four limbs) — the operators' zero shortcuts rely on them", floor=2)
+    zero_tests(ctx, z)
     ctx.assumptions.append("bigint::U256 + - * abort on overflow / negative, / % are Euclidean and abort on zero (multi-limb carries inside bigint are not analysed)")
 
 
@@ -433,8 +436,27 @@ def check_narrow(ctx, inst, target, source, value):
     exits = [x for x in common.exit_sites(P, f)]
     limb = lambda k: P_(f, 0, ".0.0[%d]" % k)
     need = {"is_zero(%s) is [True]" % limb(2), "is_zero(%s) is [True]" % limb(3)}
+    # conditions established by an assert helper `fn assert_fits(v: &U256) { assert!(..); assert!(..) }` called on the way
+    helper_cs = {}
+    for cb, cp_, cfr, ct in P.calls(f):
+        gh = (P.fn(cp_) or P.fn(generic_path(cp_))) if cp_ else None
+        if gh is None or gh.crate != "bignumber" or gh.body is None or gh.derived or gh.body.back_edges() or gh.body.locals[0]["ty"] != "()":
+            continue
+        rbs = [rb for rb in gh.body.return_blocks() if rb in gh.body.reachable_from(0)]
+        if len(rbs) != 1:
+            continue
+        hcs = lemmas.cond_strings(ctx, common.control_conditions(P, gh, rbs[0]))
+        cv_ = P.val_call(f, f.body, cb)
+        for k_, a_ in enumerate(cv_[4]):
+            ar_ = sorted(ctx.roots(a_))
+            if len(ar_) == 1:
+                hcs = {c_.replace(P_(gh, k_), ar_[0]) for c_ in hcs}
+        helper_cs[cb] = hcs
     for (b, i, cls, v) in exits:
         cs = lemmas.cond_strings(ctx, common.control_conditions(P, f, b))
+        for cb, hcs in helper_cs.items():
+            if f.body.block_dominates(cb, b):
+                cs = cs | hcs
         cs = {c for c in cs if c.startswith(("eq(", "is_zero("))}
         if not need <= cs:
             inst.fail("C08.R4:narrow:%s:unguarded" % target, f.path, common.span_of_block_term(f, b),
@@ -463,3 +485,124 @@ def check_narrow(ctx, inst, target, source, value):
             inst.fail("C08.R4:narrow:%s:value" % target, f.path, f.span, "narrowing does not recompose (limb1 << 64) + limb0: %s" % (ctx.show(v, 6) if v else "?"))
             return
     inst.site("From<%s> for %s: guarded by limb2 == 0 ∧ limb3 == 0%s" % (source.split("::")[-1], target, ", value (limb1 << 64) + limb0" if value else ""))
+
+
+BIG_TYPES = ("bignumber::math::Uint256", "bignumber::math::Decimal256")
+VERIFIED_NARROW = {("bignumber::math::Uint256", "u128"), ("bignumber::math::Decimal256", "cosmwasm_std::Decimal")}
+LOSSLESS_WRAP = re.compile(r"^(<cosmwasm_std::(\S*::)?Uint128 as (core|std)::convert::From<u128>>::from|cosmwasm_std::(\S*::)?Uint128::new|"
+                           r"<bigint::(\S*::)?U256 as (core|std)::convert::From<(u8|u16|u32|u64|u128|usize)>>::from|"
+                           r"cosmwasm_std::(\S*::)?Uint128::u128|<(u128|u64) as (core|std)::convert::From<(u8|u16|u32|u64)>>::from)$")
+
+
+def conversion_inventory(ctx, inst):
+    """Every From impl of the crate between a 256-bit type and anything else is either one of the two guarded narrowings
+    (check_narrow), the identity on the U256 field, a text conversion (C18), or a *delegation*: lossless std / cosmwasm
+    wrappers around exactly one call that lands in a guarded narrowing or a verified widening, applied to the parameter."""
+    P = ctx.P
+    common.resolve_conversion(P, {"path": "std::convert::From::from", "args": ["-", "-"]})
+    for (src, dst), g in sorted(P._conv_index.items()):
+        if g.crate != "bignumber" or "::tests::" in g.path:
+            continue
+        if src not in BIG_TYPES and dst not in BIG_TYPES:
+            continue
+        if (src, dst) in VERIFIED_NARROW or (src, dst) == ("u128", "bignumber::math::Uint256"):
+            continue        # check_narrow / from_u128 above
+        if dst == "std::string::String" or src in ("std::string::String", "&str") or (src, dst) == ("cosmwasm_std::Decimal", "bignumber::math::Decimal256"):
+            continue        # text paths: C18.T4
+        label = "%s -> %s" % (src.split("::")[-1], dst.split("::")[-1])
+        exits = common.exit_sites(P, g)
+        if len(exits) != 1:
+            inst.fail("C08.R4:conv:%s:shape" % label, g.path, g.span, "conversion %s has %d exits: unrecognised-idiom" % (label, len(exits)))
+            continue
+        v = exits[0][3]
+        prm = ("param", g.path, 0)
+        # peel: struct wrapper Uint256{0: ..} / Decimal256{0: ..}, field .0, lossless wrappers
+        inner_calls = []
+        ok = True
+        x = v
+        for _ in range(8):
+            if x == prm:
+                break
+            if x[0] == "agg" and len(x[3]) == 1:
+                x = x[3][0][1]
+                continue
+            if x[0] == "proj" and x[2] == ("f", 0):
+                x = x[1]
+                continue
+            if x[0] == "call" and isinstance(x[3], str) and len(x[4]) == 1:
+                callee = x[3]
+                if LOSSLESS_WRAP.match(callee):
+                    x = x[4][0]
+                    continue
+                f_ = P.fn(str(x[1])) or P.fn(str(x[1]).rsplit("#", 1)[0])
+                fr = None
+                if f_ is not None:
+                    t = f_.body.blocks[x[2]]["term"]
+                    fr = (t.get("func") or {}).get("fn")
+                tgt = common.resolve_conversion(P, fr)
+                if tgt is not None:
+                    inner_calls.append(tgt)
+                    x = x[4][0]
+                    continue
+                if fr and fr.get("path", "").endswith(("Into::into", "From::from")):
+                    a = fr.get("args") or []
+                    pair = (a[0], a[1]) if fr["path"].endswith("into") else (a[1], a[0])
+                    # widening into the 256-bit integer of the trusted base
+                    if re.match(r"^bigint::(\S*::)?U256$", pair[1]) and pair[0] in ("u8", "u16", "u32", "u64", "u128", "usize"):
+                        x = x[4][0]
+                        continue
+            ok = False
+            break
+        if x != prm:
+            ok = False
+        bad = [t for t in inner_calls if not (t.crate == "bignumber")]
+        if not ok or bad:
+            inst.fail("C08.R4:conv:%s:unverified" % label, g.path, g.span,
+                      "conversion %s is %s: neither a guarded narrowing, the identity on the U256 field, nor lossless wrappers around one verified conversion of the parameter — high limbs can be dropped silently" % (label, ctx.show(v, 6)[:220]))
+        else:
+            via = " via " + ", ".join(common.short_path(t.path) for t in inner_calls) if inner_calls else ""
+            inst.site("From<%s> for %s: lossless wrappers around the parameter%s" % (src.split("::")[-1], dst.split("::")[-1], via))
+
+
+def zero_tests(ctx, inst):
+    P = ctx.P
+    n = 0
+    for ty in BIG_TYPES:
+        fs = [g for g in P.fns.values() if g.crate == "bignumber" and g.body is not None and g.name == "is_zero" and g.impl_self == ty and "::tests::" not in g.path]
+        if len(fs) != 1:
+            inst.fail("C08.Z:%s:anchor" % ty.split("::")[-1], "-", "-", "anchor-missing: %s::is_zero (%d found)" % (ty, len(fs)))
+            continue
+        g = fs[0]
+        n += 1
+        fld = P_(g, 0, ".0")
+        ok = False
+        why = ""
+        exits = common.exit_sites(P, g)
+        if len(exits) == 1:
+            v = exits[0][3]
+            if v[0] == "call" and isinstance(v[3], str) and re.match(r"^bigint::(\S*::)?U256::is_zero$", generic_path(v[3])) and set(ctx.roots(v[4][0])) == {fld}:
+                ok = True
+            elif v[0] == "call" and isinstance(v[3], str) and re.search(r"PartialEq(<\S*>)?>::eq$", v[3]):
+                rs = [set(ctx.roots(a)) for a in v[4]]
+                zs = [a for a in v[4] if a[0] == "call" and isinstance(a[3], str) and re.search(r"U256::zero$", generic_path(a[3]))]
+                ok = {fld} in rs and len(zs) == 1
+            why = ctx.show(v, 5)[:200]
+        if not ok:
+            # limb-wise form: the true exit is reached exactly under limb[k] == 0 for k = 0..3
+            tr = [x for x in exits if x[3] == ("const", "bool", True) or x[3] == ("const", "int", 1)]
+            limbs = set()
+            for (b, i, cls, v) in tr:
+                for pc in common.path_conjunctions(P, g, b) or []:
+                    ks = set()
+                    for c in pc:
+                        for s_ in lemmas.cond_strings(ctx, [c]):
+                            m = re.match(r"^is_zero\(%s\.0\[(\d)\]\) is \[True\]$" % re.escape(fld), s_)
+                            if m:
+                                ks.add(int(m.group(1)))
+                    limbs = ks if not limbs else (limbs & ks)
+            ok = limbs == {0, 1, 2, 3}
+            why = why or "true under zero tests of limbs %s" % sorted(limbs)
+        if ok:
+            inst.site("%s::is_zero tests the whole 256-bit field" % ty.split("::")[-1])
+        else:
+            inst.fail("C08.Z:%s" % ty.split("::")[-1], g.path, g.span, "%s::is_zero is not a zero test of the whole value (%s): a non-zero operand can take the operators' zero shortcut" % (ty.split("::")[-1], why))
